@@ -284,7 +284,9 @@ def _c02_case(res: Result, cls: type, spec: describe.StructSpec, tree: dict, dis
 def _mk_zones() -> list:
     import datetime as _dt
 
-    zones = [_dt.timezone(_dt.timedelta(hours=14)), _dt.timezone(_dt.timedelta(hours=-11, minutes=-30)), _dt.timezone.utc]
+    zones = [_dt.timezone(_dt.timedelta(hours=14)), _dt.timezone(_dt.timedelta(hours=-11, minutes=-30)), _dt.timezone.utc,
+             # sub-minute and sub-second (whole-millisecond) UTC offsets: the wall clock's seconds and milliseconds are not the instant's
+             _dt.timezone(_dt.timedelta(hours=1, milliseconds=500)), _dt.timezone(-_dt.timedelta(milliseconds=1)), _dt.timezone(_dt.timedelta(minutes=-44, seconds=-30, milliseconds=-250))]
     try:
         import zoneinfo
 
